@@ -1,7 +1,7 @@
 """C04 — adapter lookup returns the most specific applicable registration."""
 from . import regcommon, worldcommon
 
-THEOREMS = ["ZI.Registry.Ext.relookup_tabOk", "ZI.Registry.Ext.relookup_adapters", "ZI.Registry.Ext.tabOk_initExt", "ZI.Registry.lookupRec_eq_first", "ZI.Registry.mem_rpaths", "ZI.Registry.C04_sound", "ZI.Registry.C04_complete", "ZI.Registry.C04_best",
+THEOREMS = ["ZI.Registry.Ext.relookup_tabOk_verifying", "ZI.Registry.Ext.relookup_tabOk", "ZI.Registry.Ext.relookup_adapters", "ZI.Registry.Ext.tabOk_initExt", "ZI.Registry.lookupRec_eq_first", "ZI.Registry.mem_rpaths", "ZI.Registry.C04_sound", "ZI.Registry.C04_complete", "ZI.Registry.C04_best",
             "ZI.Registry.rpaths_first_position", "ZI.Registry.C04_chain", "ZI.Lookup.lookupRec_eq_first",
             "ZI.Registry.C04_extInv", "ZI.Registry.C04_extendors_content", "ZI.Registry.C04_provided_count_ne_zero", "ZI.Registry.C04_extendors_nodup",
             "ZI.Registry.C04_extendors_order", "ZI.Registry.C04_most_general", "ZI.Registry.C04_most_general_lex", "ZI.Registry.C04_most_general_lookup",
